@@ -369,7 +369,8 @@ def _grid_overlay_site(F, s, recv_ty):
     elif not re.match(pat, recv_ty):
         return False
     tree = {b_.path for b_ in tree_of(F, GRID_PROCESS)} if GRID_PROCESS in F.bodies else set()
-    return s["fn"] in tree and s["fn"] != GRID_PROCESS
+    # (in `process` itself only the typed slice form: the per-combination code written as a loop instead of a closure)
+    return s["fn"] in tree and (s["fn"] != GRID_PROCESS or s["kind"] == "assert")
 
 
 def json_object_provenance(F, body, raw, depth=0):
